@@ -153,6 +153,9 @@ func TestC15(t *testing.T) {
 			// reattach after the test-mode server's context was cancelled: nothing listens, the pid (our own) is alive
 			{"testserve:" + proto, "treattach", "start", "client", "dispense", "set:7", "kill", "cancel", "treattach", "start!notfound"},
 			{"testserve:" + proto, "cancel", "treattach", "start!notfound"},
+			// a test-mode reattach config that also carries a ReattachFunc (custom runner): Kill must neither stop the
+			// server nor ask the runner to kill anything
+			{"testserve:" + proto, "treattachfn", "start", "client", "dispense", "set:7", "kill", "closed?", "fakekills?", "treattach", "start", "client", "dispense", "get", "kill", "cancel"},
 			// second generation: a client reattached from a reattached client's own ReattachConfig
 			{"testserve:" + proto, "treattach", "start", "client", "dispense", "set:7", "reattach:0", "start", "client", "dispense", "get", "kill:1", "closed?", "get:@0", "cancel"},
 		} {
@@ -230,6 +233,9 @@ func TestC15(t *testing.T) {
 				}
 				if o.Err != "" {
 					bad("test mode: %s failed: %s", o.Op, o.Err)
+				}
+				if o.Op == "fakekills?" && o.Val != "0" {
+					bad("test mode: Kill on the reattached client asked the runner to kill the serving process (%s times)", o.Val)
 				}
 				if o.Op == "closed?" && o.Val != "serving" {
 					bad("test mode: the server stopped although only the client was killed")
